@@ -111,4 +111,11 @@ theorem clear_owns_nothing (s : RState K V) : abs (clear s) = [] ∧ sepKeys (cl
   refine ⟨?_, rfl⟩
   simp [abs, clear, freshState, toList, leaves, emptyLeaf, Leaf.entries]
 
+/-- non-vacuity: at a concrete three-level state (`C02.demo_state`) the live values are exactly the entries -/
+example : ∃ s : RState Int Nat, s.height = 2 ∧ (vals (abs s)).length = len s ∧ len s = 30 := by
+  obtain ⟨s, hs, _, hh, hl, _⟩ := C02.demo_state
+  have h1 := live_values_eq_len s hs.inv
+  refine ⟨s, hh, h1, ?_⟩
+  rw [← h1]; simpa [vals] using hl
+
 end BPT.Props.C11
